@@ -26,7 +26,7 @@ func main() {
 		Engine: "B/tasksim",
 		Components: map[string]string{
 			"prism root package, srgb, adobergb, prophotorgb, displayp3, linear, linear/lut, ciexyz, ciexyy, cielab, matrix": "real code, scratch copy with a simrt.Yield before every statement (go/ast), sync.* types swapped for simulator-aware wrappers around the real primitives",
-			"prism meta/* loaders (used as C11 operations)":                                                                  "real, uninstrumented (one atomic step per call), still watched by the race detector",
+			"prism meta/* loaders (used as C11 operations)":                                                                  "real code, yield-instrumented like the colour packages (loader calls of different tasks interleave statement by statement), on task-private simulated sources",
 			"github.com/mandykoh/go-parallel RunWorkers":                                                                     "stub with the same contract and happens-before edges, workers run as tasks of the simulator",
 			"goroutine scheduling among caller tasks and library workers":                                                    "simulated (seeded: SERIAL-PERM, RANDOM-WALK, PCT, SITE-BIAS), serial, invisible to the race detector",
 			"sync.Once / Mutex / WaitGroup semantics":                                                                        "real primitives; a task that would block is parked by the simulator first",
